@@ -1,6 +1,7 @@
 package main
 
 import (
+	"sync"
 	"fmt"
 	"go/token"
 	"go/types"
@@ -19,6 +20,9 @@ var (
 func stack() []byte { return debug.Stack() }
 
 // World is one worker's interpreter instance: its own globals/heap, term table and solver.
+// maxPathSteps bounds the SSA instructions one path may execute (typical paths: 10^4..10^6).
+const maxPathSteps = 20_000_000
+
 type World struct {
 	prog          *ssa.Program
 	globals       map[*ssa.Global]*value
@@ -35,6 +39,7 @@ type World struct {
 	run   *Run
 	depth int
 	steps int64
+	pathSteps0 int64 // value of steps when the current path started (see maxPathSteps)
 	funcs map[*ssa.Function]int // functions entered (evidence)
 
 	sched *sched
@@ -130,6 +135,22 @@ func (w *World) globalAddr(g *ssa.Global) *value {
 	panic(engineError{"no storage for global " + g.String()})
 }
 
+// buildPackage serialises the lazy SSA builds of different packages across workers: concurrent Package.Build calls
+// that instantiate the same generic functions (cmp.isNaN[int] ...) were seen to corrupt each other
+// ("SanityCheck failed ... function has 2 parameters in signature but has 1 after building").
+var gBuildMu sync.Mutex
+
+func buildPackage(pkg *ssa.Package) {
+	gBuildMu.Lock()
+	defer gBuildMu.Unlock()
+	defer func() {
+		if e := recover(); e != nil {
+			panic(engineError{fmt.Sprintf("SSA build of package %s failed: %v", pkg.Pkg.Path(), e)})
+		}
+	}()
+	pkg.Build()
+}
+
 // setupPackage allocates globals of pkg and runs its init (and, transitively through init's own
 // calls to dependencies' init functions, theirs).
 func (w *World) setupPackage(pkg *ssa.Package) {
@@ -137,7 +158,7 @@ func (w *World) setupPackage(pkg *ssa.Package) {
 		return
 	}
 	w.pkgInit[pkg] = true
-	pkg.Build()
+	buildPackage(pkg)
 	for _, m := range pkg.Members {
 		if g, ok := m.(*ssa.Global); ok {
 			cell := zero(mustDeref(g.Type()))
